@@ -959,7 +959,8 @@ func omittedFieldDeref(c *core.Ctx) {
 
 // ---- generator ----
 
-func genCallback(c *core.Ctx) (*ast.FuncLit, *types.Info) {
+// genCallback finds the function protogen's Run is given: a function literal or a named function.
+func genCallback(c *core.Ctx) (*ast.BlockStmt, *types.Info) {
 	pkg, info := genPkg(c)
 	if pkg == nil {
 		return nil, nil
@@ -968,27 +969,34 @@ func genCallback(c *core.Ctx) (*ast.FuncLit, *types.Info) {
 	if mainFd == nil {
 		return nil, nil
 	}
-	var lit *ast.FuncLit
+	var body *ast.BlockStmt
 	for _, call := range astx.CallsDeep(mainFd.Body) {
 		f := astx.CalleeFunc(info, call)
 		if f == nil || f.Name() != "Run" || f.Pkg() == nil || !strings.HasSuffix(f.Pkg().Path(), "compiler/protogen") {
 			continue
 		}
 		for _, a := range call.Args {
-			if l, ok := astx.Unparen(a).(*ast.FuncLit); ok {
-				lit = l
+			switch x := astx.Unparen(a).(type) {
+			case *ast.FuncLit:
+				body = x.Body
+			default:
+				if fn, ok := astx.ObjOf(info, x).(*types.Func); ok {
+					if fd := c.P.Decl(fn); fd != nil {
+						body = fd.Body
+					}
+				}
 			}
 		}
 	}
-	if lit == nil {
-		c.Undecided("callback", mainFd.Pos(), "the function literal passed to protogen's Run was not found")
+	if body == nil {
+		c.Undecided("callback", mainFd.Pos(), "the function passed to protogen's Run was not found")
 	}
-	return lit, info
+	return body, info
 }
 
 func genFeaturesUnconditional(c *core.Ctx) {
-	lit, info := genCallback(c)
-	if lit == nil {
+	body, info := genCallback(c)
+	if body == nil {
 		return
 	}
 	declares := func(n ast.Node) bool {
@@ -1013,7 +1021,7 @@ func genFeaturesUnconditional(c *core.Ctx) {
 		return found
 	}
 	exits, bad := 0, 0
-	_, trunc := astx.ForEachExit(info, lit.Body, func(s *astx.State, kind astx.ExitKind, ret *ast.ReturnStmt) {
+	_, trunc := astx.ForEachExit(info, body, func(s *astx.State, kind astx.ExitKind, ret *ast.ReturnStmt) {
 		if ret != nil && len(ret.Results) == 1 && !astx.IsNil(info, ret.Results[0]) {
 			return
 		}
@@ -1023,20 +1031,20 @@ func genFeaturesUnconditional(c *core.Ctx) {
 		}
 	})
 	if trunc {
-		c.Undecided("declared", lit.Pos(), "path enumeration truncated")
+		c.Undecided("declared", body.Pos(), "path enumeration truncated")
 		return
 	}
-	c.Check(bad == 0 && exits > 0, "declared", lit.Pos(), "%d successful exit(s) of the plugin callback, %d without SupportedFeatures carrying FEATURE_PROTO3_OPTIONAL set in the callback itself", exits, bad)
+	c.Check(bad == 0 && exits > 0, "declared", body.Pos(), "%d successful exit(s) of the plugin callback, %d without SupportedFeatures carrying FEATURE_PROTO3_OPTIONAL set in the callback itself", exits, bad)
 }
 
 func genNoReject(c *core.Ctx) {
-	lit, info := genCallback(c)
-	if lit == nil {
+	body, info := genCallback(c)
+	if body == nil {
 		return
 	}
 	pkg, _ := genPkg(c)
 	rets, bad := 0, 0
-	for _, ret := range astx.Returns(lit.Body) {
+	for _, ret := range astx.Returns(body) {
 		rets++
 		if len(ret.Results) != 1 || !astx.IsNil(info, ret.Results[0]) {
 			bad++
@@ -1062,25 +1070,26 @@ func genNoReject(c *core.Ctx) {
 		}
 		return ""
 	}
-	funcs := 0
-	scan := func(name string, body ast.Node) {
-		for _, call := range astx.CallsDeep(body) {
+	// everything reachable from the callback through static first-party calls
+	seen := map[*ast.FuncDecl]bool{}
+	var visit func(name string, b ast.Node)
+	visit = func(name string, b ast.Node) {
+		for _, call := range astx.CallsDeep(b) {
 			if what := aborts(call); what != "" {
 				bad++
 				c.Violation(fmt.Sprintf("reject/%s/%s", name, what), call.Pos(), "%s calls %s while generating: a valid input file is rejected (or the run dies) instead of being generated", name, what)
 			}
+			if f := astx.CalleeFunc(info, call); f != nil && f.Pkg() == pkg.Types {
+				if fd := c.P.Decl(f); fd != nil && fd.Body != nil && !seen[fd] {
+					seen[fd] = true
+					visit(core.FuncName(fd), fd.Body)
+				}
+			}
 		}
 	}
-	scan("callback", lit.Body)
-	for _, fd := range c.P.AllFuncDecls(pkg) {
-		if core.FuncName(fd) == "main" {
-			continue
-		}
-		funcs++
-		scan(core.FuncName(fd), fd.Body)
-	}
-	c.Ok("inventory", lit.Pos(), "%d return(s) of the callback and %d generator function(s), %d rejecting or aborting construct(s)", rets, funcs, bad)
-	c.Floor("generator functions", funcs, 10)
+	visit("callback", body)
+	c.Ok("inventory", body.Pos(), "%d return(s) of the callback and %d generator function(s) reachable from it, %d rejecting or aborting construct(s)", rets, len(seen), bad)
+	c.Floor("generator functions reachable from the callback", len(seen), 10)
 }
 
 func genImportPathMatchesPackage(c *core.Ctx) {
